@@ -17,9 +17,9 @@ func pt(kind string, p unsafe.Pointer) {
 
 type Bool struct{ v atomic.Bool }
 
-func (b *Bool) Load() bool        { pt("atomic.load", unsafe.Pointer(b)); return b.v.Load() }
-func (b *Bool) Store(x bool)      { pt("atomic.store", unsafe.Pointer(b)); b.v.Store(x) }
-func (b *Bool) Swap(x bool) bool  { pt("atomic.swap", unsafe.Pointer(b)); return b.v.Swap(x) }
+func (b *Bool) Load() bool       { pt("atomic.load", unsafe.Pointer(b)); return b.v.Load() }
+func (b *Bool) Store(x bool)     { pt("atomic.store", unsafe.Pointer(b)); b.v.Store(x) }
+func (b *Bool) Swap(x bool) bool { pt("atomic.swap", unsafe.Pointer(b)); return b.v.Swap(x) }
 func (b *Bool) CompareAndSwap(o, n bool) bool {
 	pt("atomic.cas", unsafe.Pointer(b))
 	return b.v.CompareAndSwap(o, n)
@@ -27,10 +27,10 @@ func (b *Bool) CompareAndSwap(o, n bool) bool {
 
 type Int32 struct{ v atomic.Int32 }
 
-func (b *Int32) Load() int32          { pt("atomic.load", unsafe.Pointer(b)); return b.v.Load() }
-func (b *Int32) Store(x int32)        { pt("atomic.store", unsafe.Pointer(b)); b.v.Store(x) }
-func (b *Int32) Swap(x int32) int32   { pt("atomic.swap", unsafe.Pointer(b)); return b.v.Swap(x) }
-func (b *Int32) Add(d int32) int32    { pt("atomic.add", unsafe.Pointer(b)); return b.v.Add(d) }
+func (b *Int32) Load() int32        { pt("atomic.load", unsafe.Pointer(b)); return b.v.Load() }
+func (b *Int32) Store(x int32)      { pt("atomic.store", unsafe.Pointer(b)); b.v.Store(x) }
+func (b *Int32) Swap(x int32) int32 { pt("atomic.swap", unsafe.Pointer(b)); return b.v.Swap(x) }
+func (b *Int32) Add(d int32) int32  { pt("atomic.add", unsafe.Pointer(b)); return b.v.Add(d) }
 func (b *Int32) CompareAndSwap(o, n int32) bool {
 	pt("atomic.cas", unsafe.Pointer(b))
 	return b.v.CompareAndSwap(o, n)
@@ -38,10 +38,10 @@ func (b *Int32) CompareAndSwap(o, n int32) bool {
 
 type Int64 struct{ v atomic.Int64 }
 
-func (b *Int64) Load() int64          { pt("atomic.load", unsafe.Pointer(b)); return b.v.Load() }
-func (b *Int64) Store(x int64)        { pt("atomic.store", unsafe.Pointer(b)); b.v.Store(x) }
-func (b *Int64) Swap(x int64) int64   { pt("atomic.swap", unsafe.Pointer(b)); return b.v.Swap(x) }
-func (b *Int64) Add(d int64) int64    { pt("atomic.add", unsafe.Pointer(b)); return b.v.Add(d) }
+func (b *Int64) Load() int64        { pt("atomic.load", unsafe.Pointer(b)); return b.v.Load() }
+func (b *Int64) Store(x int64)      { pt("atomic.store", unsafe.Pointer(b)); b.v.Store(x) }
+func (b *Int64) Swap(x int64) int64 { pt("atomic.swap", unsafe.Pointer(b)); return b.v.Swap(x) }
+func (b *Int64) Add(d int64) int64  { pt("atomic.add", unsafe.Pointer(b)); return b.v.Add(d) }
 func (b *Int64) CompareAndSwap(o, n int64) bool {
 	pt("atomic.cas", unsafe.Pointer(b))
 	return b.v.CompareAndSwap(o, n)
@@ -71,9 +71,9 @@ func (b *Uint64) CompareAndSwap(o, n uint64) bool {
 
 type Pointer[T any] struct{ v atomic.Pointer[T] }
 
-func (b *Pointer[T]) Load() *T       { pt("atomic.load", unsafe.Pointer(b)); return b.v.Load() }
-func (b *Pointer[T]) Store(x *T)     { pt("atomic.store", unsafe.Pointer(b)); b.v.Store(x) }
-func (b *Pointer[T]) Swap(x *T) *T   { pt("atomic.swap", unsafe.Pointer(b)); return b.v.Swap(x) }
+func (b *Pointer[T]) Load() *T     { pt("atomic.load", unsafe.Pointer(b)); return b.v.Load() }
+func (b *Pointer[T]) Store(x *T)   { pt("atomic.store", unsafe.Pointer(b)); b.v.Store(x) }
+func (b *Pointer[T]) Swap(x *T) *T { pt("atomic.swap", unsafe.Pointer(b)); return b.v.Swap(x) }
 func (b *Pointer[T]) CompareAndSwap(o, n *T) bool {
 	pt("atomic.cas", unsafe.Pointer(b))
 	return b.v.CompareAndSwap(o, n)
@@ -81,9 +81,9 @@ func (b *Pointer[T]) CompareAndSwap(o, n *T) bool {
 
 type Value struct{ v atomic.Value }
 
-func (b *Value) Load() any             { pt("atomic.load", unsafe.Pointer(b)); return b.v.Load() }
-func (b *Value) Store(x any)           { pt("atomic.store", unsafe.Pointer(b)); b.v.Store(x) }
-func (b *Value) Swap(x any) any        { pt("atomic.swap", unsafe.Pointer(b)); return b.v.Swap(x) }
+func (b *Value) Load() any      { pt("atomic.load", unsafe.Pointer(b)); return b.v.Load() }
+func (b *Value) Store(x any)    { pt("atomic.store", unsafe.Pointer(b)); b.v.Store(x) }
+func (b *Value) Swap(x any) any { pt("atomic.swap", unsafe.Pointer(b)); return b.v.Swap(x) }
 func (b *Value) CompareAndSwap(o, n any) bool {
 	pt("atomic.cas", unsafe.Pointer(b))
 	return b.v.CompareAndSwap(o, n)
@@ -118,8 +118,11 @@ func CompareAndSwapInt64(p *int64, o, n int64) bool {
 	pt("atomic.cas", unsafe.Pointer(p))
 	return atomic.CompareAndSwapInt64(p, o, n)
 }
-func LoadUint32(p *uint32) uint32     { pt("atomic.load", unsafe.Pointer(p)); return atomic.LoadUint32(p) }
-func StoreUint32(p *uint32, v uint32) { pt("atomic.store", unsafe.Pointer(p)); atomic.StoreUint32(p, v) }
+func LoadUint32(p *uint32) uint32 { pt("atomic.load", unsafe.Pointer(p)); return atomic.LoadUint32(p) }
+func StoreUint32(p *uint32, v uint32) {
+	pt("atomic.store", unsafe.Pointer(p))
+	atomic.StoreUint32(p, v)
+}
 func AddUint32(p *uint32, d uint32) uint32 {
 	pt("atomic.add", unsafe.Pointer(p))
 	return atomic.AddUint32(p, d)
@@ -128,8 +131,11 @@ func CompareAndSwapUint32(p *uint32, o, n uint32) bool {
 	pt("atomic.cas", unsafe.Pointer(p))
 	return atomic.CompareAndSwapUint32(p, o, n)
 }
-func LoadUint64(p *uint64) uint64     { pt("atomic.load", unsafe.Pointer(p)); return atomic.LoadUint64(p) }
-func StoreUint64(p *uint64, v uint64) { pt("atomic.store", unsafe.Pointer(p)); atomic.StoreUint64(p, v) }
+func LoadUint64(p *uint64) uint64 { pt("atomic.load", unsafe.Pointer(p)); return atomic.LoadUint64(p) }
+func StoreUint64(p *uint64, v uint64) {
+	pt("atomic.store", unsafe.Pointer(p))
+	atomic.StoreUint64(p, v)
+}
 func AddUint64(p *uint64, d uint64) uint64 {
 	pt("atomic.add", unsafe.Pointer(p))
 	return atomic.AddUint64(p, d)
@@ -137,4 +143,49 @@ func AddUint64(p *uint64, d uint64) uint64 {
 func CompareAndSwapUint64(p *uint64, o, n uint64) bool {
 	pt("atomic.cas", unsafe.Pointer(p))
 	return atomic.CompareAndSwapUint64(p, o, n)
+}
+
+type Uintptr struct{ v atomic.Uintptr }
+
+func (b *Uintptr) Load() uintptr          { pt("atomic.load", unsafe.Pointer(b)); return b.v.Load() }
+func (b *Uintptr) Store(x uintptr)        { pt("atomic.store", unsafe.Pointer(b)); b.v.Store(x) }
+func (b *Uintptr) Swap(x uintptr) uintptr { pt("atomic.swap", unsafe.Pointer(b)); return b.v.Swap(x) }
+func (b *Uintptr) Add(d uintptr) uintptr  { pt("atomic.add", unsafe.Pointer(b)); return b.v.Add(d) }
+func (b *Uintptr) CompareAndSwap(o, n uintptr) bool {
+	pt("atomic.cas", unsafe.Pointer(b))
+	return b.v.CompareAndSwap(o, n)
+}
+
+func (b *Int32) And(m int32) int32    { pt("atomic.and", unsafe.Pointer(b)); return b.v.And(m) }
+func (b *Int32) Or(m int32) int32     { pt("atomic.or", unsafe.Pointer(b)); return b.v.Or(m) }
+func (b *Uint32) And(m uint32) uint32 { pt("atomic.and", unsafe.Pointer(b)); return b.v.And(m) }
+func (b *Uint32) Or(m uint32) uint32  { pt("atomic.or", unsafe.Pointer(b)); return b.v.Or(m) }
+func (b *Int64) And(m int64) int64    { pt("atomic.and", unsafe.Pointer(b)); return b.v.And(m) }
+func (b *Int64) Or(m int64) int64     { pt("atomic.or", unsafe.Pointer(b)); return b.v.Or(m) }
+func (b *Uint64) And(m uint64) uint64 { pt("atomic.and", unsafe.Pointer(b)); return b.v.And(m) }
+func (b *Uint64) Or(m uint64) uint64  { pt("atomic.or", unsafe.Pointer(b)); return b.v.Or(m) }
+
+func SwapUint32(p *uint32, v uint32) uint32 {
+	pt("atomic.swap", unsafe.Pointer(p))
+	return atomic.SwapUint32(p, v)
+}
+func SwapUint64(p *uint64, v uint64) uint64 {
+	pt("atomic.swap", unsafe.Pointer(p))
+	return atomic.SwapUint64(p, v)
+}
+func LoadPointer(p *unsafe.Pointer) unsafe.Pointer {
+	pt("atomic.load", unsafe.Pointer(p))
+	return atomic.LoadPointer(p)
+}
+func StorePointer(p *unsafe.Pointer, v unsafe.Pointer) {
+	pt("atomic.store", unsafe.Pointer(p))
+	atomic.StorePointer(p, v)
+}
+func SwapPointer(p *unsafe.Pointer, v unsafe.Pointer) unsafe.Pointer {
+	pt("atomic.swap", unsafe.Pointer(p))
+	return atomic.SwapPointer(p, v)
+}
+func CompareAndSwapPointer(p *unsafe.Pointer, o, n unsafe.Pointer) bool {
+	pt("atomic.cas", unsafe.Pointer(p))
+	return atomic.CompareAndSwapPointer(p, o, n)
 }
